@@ -401,6 +401,7 @@ fn subst_label(l: &str, args: &[Opnd]) -> Result<String, String> {
             match args.get(n) {
                 Some(Opnd::Ex(E::Num(v))) => out = out.replace(&pat, &v.to_string()),
                 Some(Opnd::Ex(E::Sym(s))) => out = out.replace(&pat, s),
+                None => {}
                 other => return Err(format!("label parameter @{} needs a plain number or name, got {:?}", n, other)),
             }
         }
@@ -577,6 +578,9 @@ pub fn assemble_flat(fl: &Flattened, dev: &DeviceInfo) -> Expect {
     for f in &fl.flats {
         if let Some(l) = &f.label {
             let k = lc(l);
+            if k.contains('@') {
+                return Expect::Fail { reason: format!("label {} with an unexpanded macro parameter", l), line_id: Some(f.id) };
+            }
             if labels.contains_key(&k) {
                 return Expect::Fail { reason: format!("duplicate label {}", l), line_id: Some(f.id) };
             }
